@@ -155,6 +155,10 @@ class Builder:
             row["betreuungskost_m"] = r.choice([50.0, 120.25, 200.0, 450.5])
         if 15 <= age <= 24:
             row["in_ausbildung"] = r.random() < 0.6
+            # children under 25 who cover their own needs split off into their own
+            # Bedarfsgemeinschaft (counter per family) - make several per family likely
+            if r.random() < 0.35:
+                row["eigenbedarf_gedeckt"] = True
         if age >= 18:
             row["kind"] = bool(row["in_ausbildung"]) and r.random() < 0.7
         for p in parents:
@@ -185,6 +189,14 @@ class Builder:
         for _ in range(self.rng.randint(1, 4)):
             p1, p2 = (a, b) if self.rng.random() < 0.5 else (b, a)
             self.child(hh, p1, p2, 0, self.rng.choice([17, 17, 24]))
+
+    def t_large_family(self):
+        hh = self.new_hh()
+        a, b = self.adult(hh, 30, 58), self.adult(hh, 30, 58)
+        self.partners(a, b, self.rng.random() < 0.8, True)
+        kg = self.rng.choice([a, b])
+        for _ in range(self.rng.randint(5, 7)):
+            self.child(hh, a, b, 0, self.rng.choice([17, 17, 24]), kg=kg if self.rng.random() < 0.9 else None)
 
     def t_patchwork(self):
         hh = self.new_hh()
@@ -278,7 +290,7 @@ class Builder:
     TEMPLATES = [
         "t_single", "t_couple", "t_single_parent", "t_family", "t_patchwork", "t_child_with_partner",
         "t_three_generations", "t_adult_child", "t_pensioners",
-        "t_parent_elsewhere", "t_married_apart",
+        "t_parent_elsewhere", "t_married_apart", "t_large_family",
     ]
 
 
@@ -386,12 +398,16 @@ def generate(seed: int, year: int, *, min_rows=1, max_rows=14, stat_values=None,
                 rows[sp][c_sn] = row[c_sn]
 
     # identifier labelling of the canonical table
-    id_mode = id_mode or r.choice(["dense", "dense", "sparse_sorted", "sparse_shuffled"])
+    id_mode = id_mode or r.choice(["dense", "dense", "offset", "sparse_sorted", "sparse_shuffled"])
     n = len(rows)
     n_hh = len(b.hh_vals)
     if id_mode == "dense":
         pmap = list(range(n))
         hmap = list(range(n_hh))
+    elif id_mode == "offset":  # consecutive, but not starting at 0
+        p0, h0 = r.randint(1, 300), r.randint(1, 40)
+        pmap = list(range(p0, p0 + n))
+        hmap = list(range(h0, h0 + n_hh))
     else:
         pmap = sorted(r.sample(range(0, 40 * n + 50), n))
         hmap = sorted(r.sample(range(0, 12 * n_hh + 20), n_hh))
@@ -412,6 +428,44 @@ def generate(seed: int, year: int, *, min_rows=1, max_rows=14, stat_values=None,
             cols[c].append(v)
     clusters = [[pmap[p] for p in cl] for cl in b.clusters if cl]
     return {"cols": cols, "clusters": clusters, "year": year, "id_mode": id_mode, "seed": seed}
+
+
+def generate_crowd(seed: int, year: int, min_total: int, stat_values=None, style: str = "mixed") -> dict:
+    """Many independent populations concatenated (>= min_total rows) with disjoint dense ids.
+    Exercises size-dependent code paths (fast paths above some table size, counters that
+    overflow a digit).  style 'young_adults': mostly families with children under 25 who
+    cover their own needs."""
+    r = random.Random(seed)
+    parts = []
+    total = 0
+    pbase = hbase = 0
+    templates = ["t_adult_child", "t_adult_child", "t_family", "t_large_family", "t_child_with_partner"] if style == "young_adults" else None
+    while total < min_total:
+        p = generate(r.randrange(1 << 30), year, min_rows=3, max_rows=12, stat_values=stat_values, id_mode="dense", templates=templates)
+        n = n_rows(p)
+        nh = len(set(p["cols"]["hh_id"]))
+        if style == "young_adults":
+            c = p["cols"]
+            for i in range(n):
+                if 15 <= c["alter"][i] <= 24 and (c["p_id_elternteil_1"][i] >= 0 or c["p_id_elternteil_2"][i] >= 0) and r.random() < 0.9:
+                    c["eigenbedarf_gedeckt"][i] = True
+        p = relabel(p, {i: i + pbase for i in range(n)}, {h: h + hbase for h in range(nh)})
+        pbase += n
+        hbase += nh
+        total += n
+        parts.append(p)
+    out = parts[0]
+    for p in parts[1:]:
+        out = concat(out, p)
+    out["seed"] = seed
+    out["id_mode"] = "crowd"
+    return out
+
+
+def draw_crowd(r: random.Random, sizes) -> tuple:
+    """(min_total, style) - swarm over table sizes so that thresholds of any
+    size-dependent fast path are crossed in some runs."""
+    return r.choice(sizes), r.choice(["mixed", "mixed", "young_adults"])
 
 
 # ------------------------------------------------------------------ helpers on populations
